@@ -41,21 +41,21 @@ type Options struct {
 
 type fn struct {
 	helpers map[*types.Func]*helperInfo
-	pkg    *packages.Package
-	info   *types.Info
-	fd     *ast.FuncDecl
-	name   string
-	short  string
-	res    *core.Result
-	opts   *Options
-	params []*types.Var
-	slices map[types.Object]bool
-	work   map[types.Object]bool // workspace params (exempt as operands)
-	errs   map[types.Object]bool
-	lwork  types.Object
-	lquery map[types.Object]bool
-	par    map[ast.Node]ast.Node
-	g      *cfgx.Graph
+	pkg     *packages.Package
+	info    *types.Info
+	fd      *ast.FuncDecl
+	name    string
+	short   string
+	res     *core.Result
+	opts    *Options
+	params  []*types.Var
+	slices  map[types.Object]bool
+	work    map[types.Object]bool // workspace params (exempt as operands)
+	errs    map[types.Object]bool
+	lwork   types.Object
+	lquery  map[types.Object]bool
+	par     map[ast.Node]ast.Node
+	g       *cfgx.Graph
 	// alias maps local slice variables to the slice parameters they view.
 	alias map[types.Object]map[types.Object]bool
 	// deps maps locals to the parameters their value derives from.
